@@ -475,14 +475,9 @@ def scaled_unit_strings(run: Run, tbl, formula):
             else:
                 quant.append(None)
 
-        # GENUINE-DEFECT-CANDIDATE: after a percentage whose keyword ends the token without the grammar's trailing
-        # `space` - the bare '%' of a later component and the '%wt' / '%vol' order (`(percent + weight) | (weight +
-        # percent) + space` binds the `+ space` to the second alternative only) - a blank followed by a leading
-        # multiplier is rejected on the unmodified library: '20wt% H2O // 10% 2NaCl // Fe', '20%wt 2H2O // NaCl'
-        # raise ParseException while '20wt% 2H2O // 10% NaCl // Fe' parses.  The multiplier is not generated there.
-        for j in range(n):
-            if quant[j] is not None and kind in "WV" and quant[j].lstrip("0123456789").startswith("%"):
-                mults[j] = ""
+        # (a leading multiplier is also generated after the bare '%' of a later component and after the
+        #  '%wt' / '%vol' order: '20wt% H2O // 10% 2NaCl // Fe' and '20%wt 2H2O // NaCl' raised ParseException
+        #  before fix 006acd3 - the grammar's trailing `space` bound to one alternative only)
         if not any(mults):
             mults[n - 1] = rng.choice(["2", "3.2", ".5"])
 
